@@ -140,6 +140,9 @@ OPTION_SETS = [
     ("invalid_values='exclude'", dict(invalid_values="exclude")),
     ("data_first_search=True, addition=True", dict(data_first_search=True, addition=True)),
     ("data_first_search=True, addition=int", dict(data_first_search=True, addition=int)),
+    # several keys of one field under ignore_alias_conflicts are keys of that field, not unknown keys
+    ("ignore_alias_conflicts=True, addition=True", dict(ignore_alias_conflicts=True, addition=True)),
+    ("ignore_alias_conflicts=True, addition=False", dict(ignore_alias_conflicts=True, addition=False)),
 ]
 # option sets that are also meaningful as *runtime* options of __from__ (alias / case maps are fixed at class creation;
 # the runtime addition *type* is documented to be ignored, so only None/True/False are used at run time)
